@@ -5,7 +5,11 @@ import gen
 from session import Session, ServerDied
 
 LEVEL = 'model_checking'
-RULE = ('TLC checks on MC_Txn (all interleavings of 2 connections) that the dirtiness bookkeeping of the spec agrees with '
+RULE = ('TLC checks the implementation-shaped model of the mechanism (spec/impl/ImplWatch.tla: registration counts, per-key counters, the fast path of '
+        'mark_key_modified, baselines per (database, key), lazy expiry and sweeper stamps, FLUSHDB, every way of forgetting the watches) for Sound / Precise / '
+        'DirtySeen / CleanUnseen / ActiveCovers over every interleaving within the bounds, with four pinned / wrong designs as controls that must fail; behaviours '
+        'sampled from that model (TLC -simulate: 3 connections, 3 keys in 2 shards, 2 databases, 22 steps) are replayed on the real server and validated against '
+        'the reference specification; TLC checks on MC_Txn (all interleavings of 2 connections) that the dirtiness bookkeeping of the spec agrees with '
         'a ghost that records whether a watched entry changed since WATCH (abort when changed, no abort when nobody '
         'addressed a watched key, UNWATCH/EXEC/DISCARD forget); scenarios <pre-state type x write command x path '
         '(other connection, same connection, inside another EXEC, expiry by deadline) x target (watched key, other key, '
